@@ -90,7 +90,12 @@ def exclTags (ps : PState) (toks : List String) : List String × Bool :=
     let incrD := (opts.find? (·.startsWith "incr=")).bind (fun t => (ps.obj (t.drop 5).toString).map (·.2))
     let f35 := tens.any (fun t => Excl_reuseOrderFlip t reuse || Excl_reuseOrderFlip t incrD)
     let f36 := isCmp && tens.any (fun t => Excl_rowMajorResult t (reuse.isSome) uns)
+    -- F16/F44 root cause: a destination that is a clone of a non-contiguous view (window longer than its size) is
+    -- refused by handleFuncOpts (`reuse.len() != expShape.TotalSize()`)
+    let f16 := (match reuse with | some r => Excl_reshapeLongWindow r | none => false) ||
+      (match incrD with | some r => Excl_reshapeLongWindow r | none => false)
     ((if op == "div" && (dt == some "f32" || dt == some "f64") then ["F30"] else []) ++
+     (if f16 then ["F16"] else []) ++
      (if f31 then ["F31"] else []) ++ (if f10 then ["F10"] else []) ++ (if f32 then ["F32"] else []) ++
      (if f33 then ["F33"] else []) ++ (if f35 then ["F35"] else []) ++ (if f36 then ["F36"] else []), true)
   | "un" :: op :: _ :: rest =>
@@ -99,7 +104,9 @@ def exclTags (ps : PState) (toks : List String) : List String × Bool :=
     let dst := (rest.find? (fun t => t.startsWith "reuse=" || t.startsWith "incr=")).bind
       (fun t => (ps.obj ((t.splitOn "=").getLast!)).map (·.2))
     let f35 := match t with | some t => Excl_reuseOrderFlip t dst | none => false
+    let f16 := match dst with | some r => Excl_reshapeLongWindow r | none => false
     ((if op == "apply" && rest.any (fun t => t.startsWith "reuse=" || t.startsWith "incr=") then ["F34"] else []) ++
+     (if f16 then ["F16"] else []) ++
      (if f35 then ["F35"] else []), true)
   | ["calcS", v, spec] =>
     match ps.obj v, parseSlList spec with
